@@ -35,7 +35,8 @@ MANIFEST = {
              "xor/bit lemmas), instantiated for every tabulated coordinate and k <= 12. THE (0,m,2)-NET PROPERTY of the first two coordinates is proved for every m <= 12 and every split a+b=m "
              "(the property's whole range): the kernel evaluates a mask of the elementary boxes hit, by a divide-and-conquer recursion justified by "
              "the proved block structure X[2^k+r] = X[2^k] xor X[r], and a bit-mask lemma turns 'all 2^m boxes hit by 2^m points' into 'exactly one "
-             "each'. Both are also enumerated on the real code in the thorough tier."),
+             "each'. Both are also enumerated on the real code in the thorough tier."
+             " A window yields exactly stop+1-start rows of D coordinates and the batch IS the list of single points (sobolBatch_eq_map_single, kgfBatch_eq_map_single)."),
     "note": ("Trusted: Lean kernel; .npz translator; hand model (branch merge, exact L); compiled extension = its .pyx (drift guard); Korobov floats. "
              "All clauses of the statement have theorems; the tie to the compiled generator is the exact integer correspondence."),
     "technique": "Lean 4 proof (list/bit lemmas + decide +kernel over the regenerated table) + exact integer correspondence + complete enumeration oracle",
